@@ -16,6 +16,7 @@ use std::collections::{BTreeSet, HashMap};
 use std::panic::{catch_unwind, AssertUnwindSafe};
 use std::rc::Rc;
 
+thread_local! { static EXT_RES: Cell<bool> = Cell::new(false); }
 #[derive(Clone)]
 pub struct Clock(pub Rc<Cell<u32>>);
 impl TimeSource for Clock {
@@ -723,6 +724,34 @@ impl<'a, const D: usize, const F: usize, const V: usize> Ctx<'a, D, F, V> {
                 };
                 match r {
                     Ok(de) => (args, res_ok(de_json(self.vals, &de))),
+                    Err(e) => (args, res_err(err_name(&e))),
+                }
+            }
+            "ext_rename" => {
+                // the application edits the medium itself through `VolumeManager::device` (a documented way to reach the
+                // device): the 11 name bytes of a closed file's entry are replaced in place.  What the library reports
+                // afterwards has to be what the medium holds now (C06) - not what a cached block held before.
+                let d = self.dir(op["d"].as_str().unwrap());
+                let (nm, mut args) = self.name_args(op);
+                args["d"] = json!(self.rel(hnum(&d)));
+                let to = sfn_encode(op["to"].as_str().unwrap()).expect("scenario: ext_rename target must be 8.3");
+                args["to"] = json!(hex(&to));
+                match vm.find_directory_entry(d, nm.as_str()) {
+                    Ok(de) => {
+                        let blk = de.entry_block;
+                        let off = de.entry_offset as usize;
+                        let r = vm.device(|dev| {
+                            let mut b = [embedded_sdmmc::Block::new()];
+                            let r = embedded_sdmmc::BlockDevice::read(&*dev, &mut b, blk).and_then(|_| {
+                                b[0].contents[off..off + 11].copy_from_slice(&to);
+                                embedded_sdmmc::BlockDevice::write(&*dev, &b, blk)
+                            });
+                            EXT_RES.with(|c| c.set(r.is_ok()));
+                            Clock(Rc::new(Cell::new(0)))
+                        });
+                        drop(r);
+                        if EXT_RES.with(|c| c.get()) { (args, res_ok(json!({}))) } else { (args, res_err("DeviceError".to_string())) }
+                    }
                     Err(e) => (args, res_err(err_name(&e))),
                 }
             }
